@@ -165,6 +165,12 @@ func checkInverse(b *sourcebundle.Bundle, root string, label any) error {
 	for d := range dirs {
 		// the root's text immediately followed by a package directory's name: a sibling, not a member
 		outside = append(outside, root+filepath.Base(d), root+filepath.Base(d)+"/main.tf", root+filepath.Base(d)+"/modules/a")
+		// the same name in another letter case is another directory
+		for _, v := range []string{strings.ToUpper(filepath.Base(d)), strings.ToLower(filepath.Base(d)), strings.Title(filepath.Base(d))} {
+			if v != filepath.Base(d) && !dirs[filepath.Join(root, v)] {
+				outside = append(outside, filepath.Join(root, v), filepath.Join(root, v, "main.tf"))
+			}
+		}
 	}
 	for _, p := range outside {
 		if src, err := b.SourceForLocalPath(p); err == nil {
